@@ -266,11 +266,18 @@ func (engine *Engine) DialAsyncTimeout(network, addr string, timeout time.Durati
 				// connection is established and must not be closed (and
 				// notified as closed) before that callback has run.
 				c.mux.Lock()
-				pending := c.onConnected != nil
-				c.mux.Unlock()
-				if pending {
-					_ = c.closeWithError(ErrDialTimeout)
+				if c.closed || c.onConnected == nil {
+					c.mux.Unlock()
+					return
 				}
+				c.closed = true
+				c.wTimer = nil
+				if c.rTimer != nil {
+					c.rTimer.Stop()
+					c.rTimer = nil
+				}
+				c.mux.Unlock()
+				_ = c.closeWithErrorWithoutLock(ErrDialTimeout)
 			})
 		}
 		c.mux.Unlock()
